@@ -415,7 +415,18 @@ func runDeltaFlagThenFull(c *Ctx) {
 	write := w.calleeIs("Client.writeEncodedPushData")
 	n := 0
 	for _, f := range moduleFuncs(w) {
-		if len(CallsIn(f, false, write)) == 0 {
+		// the delivery path: functions that write pushes, and same-package helpers they call to set the flag
+		// (an obligation that leaves such a helper through its return continues at the call site)
+		onDelivery := len(CallsIn(f, false, write)) > 0
+		viaCaller := false
+		if !onDelivery {
+			for _, site := range w.Callers(f) {
+				if p := site.Parent(); p != nil && p.Pkg == f.Pkg && len(CallsIn(p, false, write)) > 0 {
+					viaCaller = true
+				}
+			}
+		}
+		if !onDelivery && !viaCaller {
 			continue
 		}
 		for _, st := range storesToField(f, false, "ChannelContext", "flags") {
@@ -429,12 +440,17 @@ func runDeltaFlagThenFull(c *Ctx) {
 				continue
 			}
 			n++
-			bad := PathQ{Stop: instrPred(write), Goal: isReturn}.From(st)
+			var bad ssa.Instruction
+			if onDelivery {
+				bad = PathQ{Stop: instrPred(write), Goal: isReturn}.From(st)
+			} else {
+				bad = w.mustPassUp(st, PathQ{Stop: instrPred(write), Goal: isReturn}, 1)
+			}
 			c.Check("C14.R7", st, "setting flagDeltaAllowed on the delivery path is followed by the push write on every path", bad == nil,
 				"the flag is set by a publication that can still be dropped: the next publication is then sent as a delta although the connection never received a base"+instrAt(w, bad))
 		}
 	}
-	c.Anchor("C14.R7", "delivery-path stores of flagDeltaAllowed", n >= 2)
+	c.Anchor("C14.R7", "delivery-path stores of flagDeltaAllowed", n >= 1)
 }
 
 // round3Hooks: further per-property rule functions registered from other files.
